@@ -77,7 +77,11 @@ Definition frame_ok (f : frame) (len : nat) : bool :=
   end.
 
 (* ---------------------------------------------------------------- a fixed library of row-wise, integer-exact preprocesses (C-tie) *)
-Inductive prep := PAdd1 | PReverse | PSquare | PPairProd | PSubFirst | PCumsum.
+Inductive prep := PAdd1 | PReverse | PSquare | PPairProd | PSubFirst | PCumsum | PZeroNan.
+
+(* non-finite samples are carried through the integer model as reserved codes (the harness exports NaN / +inf / -inf so);
+   they only occur with chains made of PReverse and PZeroNan, which move or create them but do no arithmetic on them *)
+Definition nan_code : Z := 1000001%Z.
 
 Fixpoint zip_mul (a b : list Z) : list Z :=
   match a, b with x :: a', y :: b' => (x * y)%Z :: zip_mul a' b' | _, _ => [] end.
@@ -92,6 +96,7 @@ Definition prep_row (p : prep) (x : list Z) : list Z :=
   | PPairProd => zip_mul x (tl x)                          (* x[:, :-1] * x[:, 1:] *)
   | PSubFirst => map (fun v => (v - hd 0%Z x)%Z) x         (* x - x[:, :1] *)
   | PCumsum => cumsum_from 0%Z x                           (* cumsum(x, axis=1) *)
+  | PZeroNan => map (fun v => if (v =? 0)%Z then nan_code else v) x   (* where(x == 0, nan, x): a preprocess producing NaN *)
   end.
 
 (* ---------------------------------------------------------------- Container._compute_batch_size *)
